@@ -177,7 +177,7 @@ func askExtra(h *lspx.Harness, kind, uri string, p refclient.Pos) (out string, e
 	return string(b), nil
 }
 
-var c01ProbeKinds = []string{"completion", "hover", "documentSymbol", "semanticRange", "folding", "references", "definition", "formatting"}
+var c01ProbeKinds = []string{"completion", "hover", "documentSymbol", "semanticRange", "folding", "references", "definition", "formatting", "inlineCompletion", "inlineCompletion", "links", "prepareRename"}
 
 func c01Check(c *C01Case) (ds []ev.Discrepancy, classes []string) {
 	installGate()
@@ -246,7 +246,7 @@ func c01Check(c *C01Case) (ds []ev.Discrepancy, classes []string) {
 		if op.Probe != nil && len(ds) == 0 {
 			if b, ok := bufs[op.Doc]; ok {
 				cls["probe:"+op.Probe.Kind] = true
-				got, aerr := ask(h, op.Probe.Kind, uri, op.Probe.Pos)
+				got, aerr := ask2(h, op.Probe.Kind, uri, op.Probe.Pos)
 				gate.release()
 				if qerr := h.Quiesce(); qerr != nil {
 					return append(ds, ev.D("c01.harness", "%v", qerr)), keys(cls)
@@ -258,7 +258,7 @@ func c01Check(c *C01Case) (ds []ev.Discrepancy, classes []string) {
 				if _, e := fresh.OpenAndWait(uri, b.String()); e != nil {
 					return append(ds, ev.D("c01.harness", "%v", e)), keys(cls)
 				}
-				want, werr := ask(fresh, op.Probe.Kind, uri, op.Probe.Pos)
+				want, werr := ask2(fresh, op.Probe.Kind, uri, op.Probe.Pos)
 				if aerr != nil || werr != nil {
 					ds = append(ds, ev.D("c01.answer.total", "step %d: %s at %v failed: %v / %v", si, op.Probe.Kind, op.Probe.Pos, aerr, werr))
 				} else if got != want {
@@ -301,6 +301,9 @@ func genPlainDoc(t *rapid.T) string {
 }
 
 var c01Journal = []string{
+	"2024-01-15 * shop\n    expenses:food  10.50 EUR\n    assets:cash\n\n2024-02-01 shop\n\n",
+	"2024-01-15 shop\n    expenses:rent  700 EUR\n    assets:bank\n\n2024-02-01 shop\n\n",
+	"2024-01-15 market\n    expenses:food  3 USD\n    assets:cash\n\n2024-02-01 shop\n\n2024-03-01 market\n\n",
 	"2024-01-15 * shop\n    expenses:food  10.50 EUR\n    assets:cash\n",
 	"2024-01-15 shop | note\n    expenses:food  $5\n    assets:cash  $-5\n\n2024-02-01 café 😀\n    expenses:misc  1 EUR\n    assets:cash\n",
 	"account expenses:food\naccount assets:cash\n\n2024-03-01 x\n    expenses:food  3 USD\n    assets:cash\n",
@@ -441,6 +444,19 @@ func genC01(t *rapid.T) *C01Case {
 		}
 		if nb, ok := bufs[d]; ok && rapid.IntRange(0, 2).Draw(t, "probe") == 0 {
 			op.Probe = &C01Probe{Kind: rapid.SampledFrom(c01ProbeKinds).Draw(t, "pkind"), Pos: genPos(t, nb, "probe")}
+			if op.Probe.Kind == "inlineCompletion" {
+				// ghost-text templates are offered on a blank line right after a transaction header
+				var cands []int
+				for li := 1; li < nb.LineCount(); li++ {
+					prev := nb.Line(li - 1)
+					if strings.TrimSpace(nb.Line(li)) == "" && len(prev) > 0 && prev[0] >= '0' && prev[0] <= '9' {
+						cands = append(cands, li)
+					}
+				}
+				if len(cands) > 0 {
+					op.Probe.Pos = refclient.Pos{Line: rapid.SampledFrom(cands).Draw(t, "blank"), Char: 0}
+				}
+			}
 		}
 		c.Ops = append(c.Ops, op)
 	}
